@@ -458,9 +458,15 @@ def r_statpair(ctx):
         for (_k, guards, st) in creates:
             if len(guards) == 1 and _is_emptiness_of_stationary(guards[0]):
                 first_use = min(int(em.where.split(":")[1]) for em in uses)
-                if st.lineno < first_use:
+                # the new sample also joins the list of all samples: every enumeration of the function's own samples comes after it
+                own = [em for em in hook.emissions if em.lists and any(r0 in ("points", "stationary") for r0 in em.lists)]
+                early = [em for em in own if int(em.where.split(":")[1]) < st.lineno]
+                if st.lineno < first_use and not early:
                     ok = True
                     msg = "a stationary sample is created when the stationary list is empty, before the enumeration"
+                elif st.lineno < first_use:
+                    msg = ("the stationary sample is created (line %d) after `%s` has already enumerated the samples: at the solve that creates it, "
+                           "the new sample is missing from those conditions" % (st.lineno, early[0].key))
         ctx.ob("R-STATPAIR", "%s::stationary-sample-exists" % c.name, ok, msg, "%s:%d" % (c.module.rel, hook.fn.lineno))
 
 
@@ -549,6 +555,61 @@ def r_regen(ctx):
            "the class-constraint hook runs exactly once per regeneration, on every path" if okh else
            "the hook runs %s times depending on the path (e.g. a cache keyed on the function's own sample count): conditions that depend on other state "
            "(samples of a coupled function, a new stationary sample) go stale" % sorted(normal), loc(regen, regen))
+
+
+def r_hook_memo(ctx):
+    """A class-constraint hook builds its conditions from the samples as they are at this solve: it reads no attribute that an earlier run of the
+    hook wrote (a cache of constraints keyed on part of the state goes stale when the rest of the state changes).  Attributes that the
+    regeneration routine re-initialises before calling the hook are new at every run and may be read freely."""
+    from .. import flow
+    from . import common
+    repo = ctx.repo
+    base = repo.cls("Function")
+    fresh = set()
+    for m in base.methods.values():
+        if any(isinstance(n, ast.Call) and call_name(n) == K.HOOK and dotted(n.func.value) == "self" for n in ast.walk(m)):
+            for s0 in flow.stmts_of(m, ast.Assign):
+                for t in s0.targets:
+                    d = dotted(t)
+                    if d and d.startswith("self.") and d.count(".") == 1:
+                        fresh.add(d[5:])
+    n = 0
+    for c in repo.all_classes():
+        fn = c.methods.get(K.HOOK)
+        if fn is None:
+            continue
+        writes = {}
+        for s0 in flow.stmts_of(fn):
+            tg = s0.targets if isinstance(s0, ast.Assign) else ([s0.target] if isinstance(s0, (ast.AugAssign, ast.AnnAssign)) else [])
+            for t in tg:
+                for t1 in (t.elts if isinstance(t, ast.Tuple) else [t]):
+                    d = dotted(t1)
+                    if d and d.startswith("self.") and d.count(".") == 1 and d[5:] not in fresh:
+                        writes.setdefault(d[5:], []).append(s0)
+        n += 1
+        bad = None
+        for a, ws in sorted(writes.items()):
+            plain = [w for w in ws if isinstance(w, ast.Assign)]
+            for nd in ast.walk(fn):
+                if isinstance(nd, ast.Attribute) and nd.attr == a and isinstance(nd.ctx, ast.Load) and dotted(nd) == "self." + a:
+                    st = common.stmt_of(nd)
+                    if any(w is not st and flow.dominates(w, st) for w in plain):
+                        continue
+                    bad = (a, st)
+                    break
+            if bad is None:
+                for w in ws:
+                    if isinstance(w, ast.AugAssign):
+                        if not any(w2 is not w and flow.dominates(w2, w) for w2 in plain):
+                            bad = (a, w)
+            if bad:
+                break
+        ctx.ob("R-REGEN", "%s.%s::reads nothing an earlier generation stored" % (c.name, K.HOOK), bad is None,
+               "every attribute the hook writes is written before it is read in the same run" if bad is None else
+               "`self.%s` is written by the hook and read at `%s` before any write of the same run: the hook sees what an earlier solve left there, "
+               "whatever has changed since (samples of a coupled function, parameters)" % (bad[0], norm_stmt(bad[1])[:70]),
+               loc(fn, bad[1]) if bad else loc(fn, fn))
+    ctx.count("hooks examined for cross-solve state", n)
 
 
 def qualname_of(fn):
